@@ -1,6 +1,7 @@
 import RP.Lemmas.Codec
 import RP.Lemmas.Abs
 import RP.Props.C15Pairs.All
+import RP.Props.C15Pairs.AllP
 /-! # C15 — Compact numeric encodings are lossless
 
 Theorems about the packings of `RP/Model/Codec.lean` (the definitions the driver `drv_c15` runs
@@ -560,6 +561,53 @@ theorem C15_pair_keys_distinct_within (s i j i' j' : Nat) (hs : s = 1 ∨ s = 2 
     (hij : i < j) (hj : j < nAbstractions s) (hij' : i' < j') (hj' : j' < nAbstractions s)
     (h : pairKey (absOf s i) (absOf s j) = pairKey (absOf s i') (absOf s j')) : i = i' ∧ j = j' :=
   (C15_pair_keys_distinct s s i j i' j' hs hs hij hj hij' hj' h).2
+/-- **Preflop layer** (beyond the property's three learned streets; needed by C13): the 169 preflop
+classes are kept as centroids and `Layer::metric` stores their C(169,2) = 14,196 pairwise distances under
+the same XOR keys; inside that set two unordered pairs with the same key are the same pair. -/
+theorem C15_pair_keys_distinct_pref (i j i' j' : Nat)
+    (hij : i < j) (hj : j < nAbstractions 0) (hij' : i' < j') (hj' : j' < nAbstractions 0)
+    (h : pairKey (absOf 0 i) (absOf 0 j) = pairKey (absOf 0 i') (absOf 0 j')) : i = i' ∧ j = j' := by
+  have hk : nAbstractions 0 ≤ 256 := by decide
+  have hd := C15_pair_collision_low_bits 0 0 i j i' j' (by omega) (by omega) (by omega) (by omega) (by omega) (by omega) h
+  have hlt : i ^^^ j < 2^8 := Nat.xor_lt_two_pow (by omega) (by omega)
+  have hr := RP.C15Pairs.all_dP (i ^^^ j) hlt
+  have m1 := mem_entriesOf prefLayer 0 _ i j (by simp [prefLayer]) hij hj
+  have m2 := mem_entriesOf prefLayer 0 _ i' j' (by simp [prefLayer]) hij' hj'
+  rw [← hd] at m2
+  rw [pairKey_fast _ _ _ (by omega), pairKey_fast _ _ _ (by omega)] at h
+  have e := rdx_spec 44 _ hr _ m1 _ m2 h
+  have e2 : i = i' := congrArg (·.2.1) e
+  refine ⟨e2, ?_⟩
+  have : i ^^^ (i ^^^ j) = i' ^^^ (i' ^^^ j') := by rw [hd, e2]
+  rwa [← Nat.xor_assoc, Nat.xor_self, Nat.zero_xor, ← Nat.xor_assoc, Nat.xor_self, Nat.zero_xor] at this
+
+/-- within the bucket set of any of the **four** streets -/
+theorem C15_pair_keys_distinct_within4 (s i j i' j' : Nat) (hs : s < 4)
+    (hij : i < j) (hj : j < nAbstractions s) (hij' : i' < j') (hj' : j' < nAbstractions s)
+    (h : pairKey (absOf s i) (absOf s j) = pairKey (absOf s i') (absOf s j')) : i = i' ∧ j = j' := by
+  have : s = 0 ∨ s = 1 ∨ s = 2 ∨ s = 3 := by omega
+  rcases this with rfl | hs'
+  · exact C15_pair_keys_distinct_pref i j i' j' hij hj hij' hj' h
+  · exact C15_pair_keys_distinct_within s i j i' j' hs' hij hj hij' hj' h
+
+/-- **Observation outside the property** (its text says "across the three learned streets"): the
+four-street statement is FALSE. `Metric::sources` uploads the metric files of all four streets into one
+table keyed by `xor`; three preflop pair keys coincide with a turn or river pair key
+(`drv_c15`'s `paircross` line recomputes the full list from the model and the harness from the real
+`Pair::from`). Within every street, and across flop/turn/river, keys are distinct (theorems above). -/
+theorem C15_pref_cross_street_collisions :
+    pairKey (absOf 0 8) (absOf 0 40) = pairKey (absOf 2 75) (absOf 2 107) ∧
+    pairKey (absOf 0 16) (absOf 0 48) = pairKey (absOf 3 10) (absOf 3 42) ∧
+    pairKey (absOf 0 27) (absOf 0 91) = pairKey (absOf 3 32) (absOf 3 96) := by decide
+/-- … so the analogue of `C15_pair_keys_distinct` with the preflop layer included does not hold -/
+theorem C15_four_streets_not_collision_free :
+    ¬ ∀ s s' i j i' j', s < 4 → s' < 4 → i < j → j < nAbstractions s → i' < j' → j' < nAbstractions s' →
+      pairKey (absOf s i) (absOf s j) = pairKey (absOf s' i') (absOf s' j') → s = s' ∧ i = i' ∧ j = j' := by
+  intro h
+  have := (h 0 2 8 40 75 107 (by decide) (by decide) (by decide) (by decide) (by decide) (by decide)
+    C15_pref_cross_street_collisions.1).1
+  omega
+
 /-- the key does not depend on the order of the pair -/
 theorem C15_pair_symmetric (a b : Abs) : pairKey a b = pairKey b a := by
   have : C15.pairOp = 0 := rfl
